@@ -98,65 +98,98 @@ func solveAll(results []*vc.FuncResult, s *vc.Solver, workers int) []*oblResult 
 			}
 		}
 	}
-	ch := make(chan job)
-	var wg sync.WaitGroup
-	for w := 0; w < workers; w++ {
-		wg.Add(1)
-		go func() {
-			defer wg.Done()
-			for j := range ch {
-				q := j.or.Obl.Queries[j.qi]
-				var a vc.Answer
-				if atomic.LoadInt32(&j.or.refuted) != 0 {
-					j.or.Answers[j.qi] = vc.Answer{Result: "skipped", Solver: "none"}
-					continue
+	// Rounds.  In a round every still-open query of every obligation that has no failed query is attempted;
+	// the first query of an obligation that does not come back `unsat` stops the attempts on that
+	// obligation's other queries (they are marked "skipped": the obligation is already not discharged).  A
+	// query that ran out of time is retried once, a few at a time, with twice the limit; if the retry
+	// succeeds the obligation's skipped queries are attempted in the next round.  A `sat` answer is final.
+	pending := jobs
+	retried := map[*oblResult]map[int]bool{}
+	for round := 0; len(pending) > 0 && round < 6; round++ {
+		ch := make(chan job)
+		var wg sync.WaitGroup
+		for w := 0; w < workers; w++ {
+			wg.Add(1)
+			go func() {
+				defer wg.Done()
+				for j := range ch {
+					q := j.or.Obl.Queries[j.qi]
+					if atomic.LoadInt32(&j.or.refuted) != 0 {
+						j.or.Answers[j.qi] = vc.Answer{Result: "skipped", Solver: "none"}
+						continue
+					}
+					a := s.SolvePortfolio(variantsOf(j.res, q))
+					j.or.Answers[j.qi] = a
+					if a.Result != "unsat" {
+						atomic.StoreInt32(&j.or.refuted, 1)
+					}
 				}
-				a = s.SolvePortfolio(variantsOf(j.res, q))
-				j.or.Answers[j.qi] = a
-				if a.Result == "sat" {
-					atomic.StoreInt32(&j.or.refuted, 1)
-				}
-			}
-		}()
-	}
-	for _, j := range jobs {
-		ch <- j
-	}
-	close(ch)
-	wg.Wait()
-	// second chance for queries that ran out of time while the machine was saturated: rerun them a few
-	// at a time with twice the time limit (a `sat` answer is final and is not retried)
-	{
+			}()
+		}
+		for _, j := range pending {
+			ch <- j
+		}
+		close(ch)
+		wg.Wait()
+		// retry the failed (not refuted by a model) queries
 		var again []job
-		for _, j := range jobs {
+		for _, j := range pending {
 			r := j.or.Answers[j.qi].Result
-			if r != "unsat" && r != "sat" && r != "skipped" && atomic.LoadInt32(&j.or.refuted) == 0 {
+			if r != "unsat" && r != "sat" && r != "skipped" && !retried[j.or][j.qi] {
 				again = append(again, j)
 			}
 		}
-		if len(again) > 0 && len(again) <= 64 && os.Getenv("GOVC_NORETRY") == "" {
-			saved := s.Timeout
-			s.Timeout = 2 * saved
-			ch2 := make(chan job)
-			var wg2 sync.WaitGroup
-			for w := 0; w < 4; w++ {
-				wg2.Add(1)
-				go func() {
-					defer wg2.Done()
-					for j := range ch2 {
-						q := j.or.Obl.Queries[j.qi]
-						a := s.SolvePortfolio(variantsOf(j.res, q))
-						a.Solver += "/retry"
-						j.or.Answers[j.qi] = a
-					}
-				}()
+		if len(again) == 0 || len(again) > 64 || os.Getenv("GOVC_NORETRY") != "" {
+			break
+		}
+		saved := s.Timeout
+		s.Timeout = 2 * saved
+		ch2 := make(chan job)
+		var wg2 sync.WaitGroup
+		for w := 0; w < 4; w++ {
+			wg2.Add(1)
+			go func() {
+				defer wg2.Done()
+				for j := range ch2 {
+					q := j.or.Obl.Queries[j.qi]
+					a := s.SolvePortfolio(variantsOf(j.res, q))
+					a.Solver += "/retry"
+					j.or.Answers[j.qi] = a
+				}
+			}()
+		}
+		for _, j := range again {
+			if retried[j.or] == nil {
+				retried[j.or] = map[int]bool{}
 			}
-			for _, j := range again {
-				ch2 <- j
+			retried[j.or][j.qi] = true
+			ch2 <- j
+		}
+		close(ch2)
+		wg2.Wait()
+		s.Timeout = saved
+		// obligations whose retried queries all succeeded: their skipped queries are next
+		pending = nil
+		reopened := map[*oblResult]bool{}
+		for _, j := range again {
+			if reopened[j.or] {
+				continue
 			}
-			close(ch2)
-			wg2.Wait()
-			s.Timeout = saved
+			ok := true
+			for _, a := range j.or.Answers {
+				if a.Result != "unsat" && a.Result != "skipped" {
+					ok = false
+				}
+			}
+			if ok {
+				reopened[j.or] = true
+				atomic.StoreInt32(&j.or.refuted, 0)
+			}
+		}
+		for _, j := range jobs {
+			if reopened[j.or] && j.or.Answers[j.qi].Result == "skipped" {
+				pending = append(pending, j)
+			}
 		}
 	}
 	for _, or := range out {
